@@ -10,8 +10,8 @@ import traceback
 
 ROOT = os.path.dirname(os.path.dirname(os.path.abspath(__file__)))
 REPO = os.environ.get('VERIF_REPO', '/repo')
-EVIDENCE_DIR = os.path.join(ROOT, 'evidence')
-REPLAY_DIR = os.path.join(ROOT, 'replays')
+EVIDENCE_DIR = os.environ.get('VERIF_EVIDENCE_DIR') or os.path.join(ROOT, 'evidence')
+REPLAY_DIR = os.environ.get('VERIF_REPLAY_DIR') or os.path.join(ROOT, 'replays')
 KNOWN_FINDINGS = os.path.join(ROOT, 'known_findings.json')
 BASELINE = os.path.join(ROOT, 'baseline_obligations.json')
 NPROC = int(os.environ.get('VERIF_NPROC', '16'))
@@ -226,8 +226,9 @@ def finish(ctx, level, checker_cmd, design_ref=''):
         n += 1
         path = write_replay(v, n)
         tail = ' no-failing-input-found' if v.no_input else ''
-        print('VIOLATION property=%s replay=%s kind=%s (%d case(s)) %s%s'
-              % (ctx.prop, path, kind, len(vs), v.what, tail))
+        obl = (' failed-obligation=%s' % v.obligation.split(';')[0]) if v.obligation and not v.no_input else ''
+        print('VIOLATION property=%s replay=%s kind=%s (%d case(s)) %s%s%s'
+              % (ctx.prop, path, kind, len(vs), v.what, obl, tail))
         reported.append(v)
     obl = ctx.obligations
     discharged = sum(1 for o in obl if o['status'] == 'discharged')
